@@ -60,7 +60,7 @@ CHECKS = {
     "C15": ("model_checking",
             "TLA+ spec WsConc.tla (write lock, close-sent latch, per-frame transport writes; TLC over all interleavings, four named deviations) + TLC-generated schedules forced on a gated transport under -race + TLC trace validation of the recorded executions",
             "in the model every interleaving of one data writer (multi-frame messages, frames of one or two transport writes), k control senders and a closer keeps the writes of a frame adjacent, puts nothing on the wire after a Close frame, makes later calls fail with close-sent and keeps data frames in order; each schedule the model allows, plus schedules that attempt the forbidden steps, is forced on the real Conn; every recorded execution (transport write order, call results, tokenised wire, messages delivered to a real peer) must be accepted by the specification and the race detector must stay silent; corrupted traces are shown to be rejected",
-            "trusted: in-memory gated transport, scheduler, goroutine attribution, frame tokenizer; lock hand-off among waiters is the runtime's choice (coverage, not verdicts, depends on it); library-internal steps not separated by a transport operation are covered in the model and only sampled on the code", "5/C15"),
+            "trusted: in-memory gated transport, scheduler, goroutine attribution, frame tokenizer; control write deadlines come in two classes, far and short (2 ms); time is not modelled: a short-deadline call may give up whenever it waits; lock hand-off among waiters is the runtime's choice (coverage, not verdicts, depends on it); library-internal steps not separated by a transport operation are covered in the model and only sampled on the code", "5/C15"),
     "C16": ("model_checking",
             "symbolic TLA+ state machine Jose.tla (TLC: accept-iff-untampered invariants, 3 named deviations) + TLC-enumerated RFC 7518 matrix replayed with real keys and single-bit flips into https/jose",
             "TLC checks on a perfect-cryptography term model that verification/decryption succeeds exactly when no carried field was changed and the key is the same, for every algorithm/serialization/tamper class, and enumerates the whole matrix; every enumerated object is signed/encrypted, serialized, bit-flipped per field (every bit for 1-byte payloads in thorough), parsed and opened by the real library and compared with the model's verdict; JWS signatures are also checked by an independent stdlib verifier; JWK round trip, fixed-width coordinates (leading-zero keys) and the RFC 7638 thumbprint are checked against spec tables",
